@@ -65,7 +65,13 @@ def registry : List (String × (Text → Res (Text × J))) := [
   ("Field54B", fun c => withTag "54B" (OptB.parse c) OptB.ser (OptB.json true false)),
   ("Field55B", fun c => withTag "55B" (OptB.parse c) OptB.ser (OptB.json true false)),
   ("Field57B", fun c => withTag "57B" (OptB.parse c) OptB.ser (OptB.json false false)),
-  ("Field77T", fun c => withTag "77T" (F77T.parse c) id (fun v => .obj [("envelope_content", .str v)]))
+  ("Field77T", fun c => withTag "77T" (F77T.parse c) id (fun v => .obj [("envelope_content", .str v)])),
+  ("Field53B", fun c => withTag "53B" (F53B.parse c) F53B.ser F53B.json),
+  ("Field53D", fun c => withTag "53D" (F53D.parse c) F53D.ser F53D.json),
+  ("Field25P", fun c => withTag "25P" (F25P.parse c) F25P.ser F25P.json),
+  ("Field50A", fun c => withTag "50A" (F50A.parse c) F50A.ser F50A.json),
+  ("Field59F", fun c => withTag "59F" (F59F.parse c) F59F.ser F59F.json),
+  ("Field50F", fun c => withTag "50F" (F50F.parse c) F50F.ser F50F.json)
 ]
 
 /-- field types whose model is exact only on part of the inputs (amounts inside the 15-digit region): `none` = not comparable -/
